@@ -42,6 +42,8 @@ TEXTS = [
     [("a --", "> b"), "second"], [("x &", "amp; y"), ("1 <", "i> 2")], [("go -", "-> there"), ("a -", "-", "> b")],
     # captions that display nothing (the 'clear' cues of SAMI and DFXP sources): still one timed cue each
     ["\xa0"], [" "],
+    # text that is not in composed normal form (a decomposed accent, the ANGSTROM SIGN): the code points are the caption's
+    ["Ame\u0301lie is 10 \u212b tall"],
 ]
 BAR = ["a|b"]
 
